@@ -4,6 +4,8 @@ def stages(tier):
     return [
         {"name": "cache", "cmd": "cache", "args": ["-prop", "C01"], "check": "Check.Store.check_c01",
          "timeout": 300, "timeout_thorough": 1800},
+        {"name": "concurrent", "cmd": "cacheconc", "args": [], "check": "self-describing bodies under real concurrency + forced same-key store overlap (direct)",
+         "timeout": 300, "timeout_thorough": 1200},
     ]
 
 TRUSTED = [
